@@ -101,13 +101,16 @@ CLAIMED = {
            "supply order (C06/Theorems.v): C06_components_linear - sections are exactly the connected components of the share-a-base graph (each "
            "area in exactly one, none empty, members chained through overlapping pairs, areas of different sections never share a base; "
            "C06_share_base_meaning ties the relation to 'exists a common base'), section location = tight hull; C06_regions_disjoint_sorted - "
-           "region locations pairwise disjoint and increasing (so add_region never refuses) and the first/last fix-up never fires. NOT "
-           "modelled/proved: origin-spanning areas (design-time finding origin_spanning_area), numbering and parent links (checked on the "
-           "implementation by oracles on every run: numbers 1..n identify the region, no area/gene links to a region no longer in the record after "
-           "clear_regions / clear_subregions / re-creation, every area of the record has a parent when regions exist). Correspondence: histories on a "
+           "region locations pairwise disjoint and increasing (so add_region never refuses) and the first/last fix-up never fires; "
+           "C06_numbering_inv - for every history of additions (insert at any admissible index, renumber from it) and clears, every feature in "
+           "the list carries the number position+1 (numbers are 1..n in location order and identify the feature). NOT modelled/proved: "
+           "origin-spanning areas (known finding F12 origin_spanning_area, witness reproduced on every run; the generator stays away from the "
+           "class), parent links (checked on the implementation by oracles on every run: no area/gene links to a region no longer in the record "
+           "after clear_regions / clear_subregions / re-creation, a linked region contains the gene, every area has a parent when regions exist). Correspondence: histories on a "
            "REAL Record with real SubRegion / Protocluster+CandidateCluster / CDS objects: areas added in random order, create_regions, then one of "
            "{clear+recreate, clear_subregions, add+clear+recreate}; regions (location + member areas) compared with the model after every create; "
-           "2.5k histories quick / 40k thorough."),
+           "add_subregion/clear_subregions histories compared with the numbering model (insertion index observed, numbers and get_subregion(number) "
+           "identity checked); 2.5k + 0.8k histories quick / 40k + 13k thorough."),
   "note": "Candidate clusters are single-protocluster DummyCandidateCluster objects of the repo's test helpers; Region/SubRegion/Record are the real classes.",
  },
 }
